@@ -124,6 +124,61 @@ theorem T3_drains (cfg : Cfg) (s : St) (hc : s.closed = false) (hh : s.tls ≠ .
   refine ⟨hd.1, hc, ?_⟩
   simp [St.wire, flat_rev_append, hd.2.2]
 
+/-- a closed session ignores every further input -/
+theorem run_closed (cfg : Cfg) : ∀ (is : List In) (s : St), s.closed = true → (run cfg s is).1.closed = true
+  | [], _, h => h
+  | i :: is, s, h => run_closed cfg is _ (step_closed cfg s i h).2.1
+
+/-- **T3 (a fair environment drains the queue).** If every writable event's first write takes at least one byte, then after
+as many writable events as there are pending bytes the queue is empty (or the session has been closed by an error the
+environment reported) — whatever the cut positions, EAGAINs and errors after the first answer of each event are. Together
+with `T3_rearm` (a writable event is always armed while the queue is non-empty) this is "no accepted byte stays queued
+forever". -/
+theorem T3_fair_drain (cfg : Cfg) : ∀ (evs : List (List WAns)) (s : St),
+    (∀ ws ∈ evs, ∃ n rest, ws = .wrote (n + 1) :: rest) →
+    s.closed = false → s.tls ≠ .handshake → s.connectPending = false → NonEmptyBufs s.wq →
+    s.pending ≤ evs.length →
+    (run cfg s (evs.map evWritable)).1.closed = true ∨ (run cfg s (evs.map evWritable)).1.wq = []
+  | [], s, _, _, _, _, hne, hlen => by
+    right
+    simp only [List.map_nil, run]
+    cases hq : s.wq with
+    | nil => rfl
+    | cons d rest =>
+      have hd : d ≠ [] := hne d (by simp [hq])
+      have hdl : 0 < d.length := List.length_pos_iff.mpr hd
+      have hp : s.pending = d.length + rest.flatten.length := by simp [St.pending, hq]
+      simp only [List.length_nil] at hlen
+      omega
+  | ws :: evs, s, hall, hc, hh, hp, hne, hlen => by
+    simp only [List.map_cons, run]
+    have hs1 : (step cfg s (evWritable ws)).1 = (writePending cfg s ws).1 := step_writable cfg s ws hc hh hp
+    rw [hs1]
+    by_cases hc1 : (writePending cfg s ws).1.closed = true
+    · left; exact run_closed cfg _ _ hc1
+    · have hc1' : (writePending cfg s ws).1.closed = false := by simpa using hc1
+      have hwq := writePending_wq cfg s ws hc1'
+      refine T3_fair_drain cfg evs _ (fun w hw => hall w (by simp [hw])) hc1' (by simpa using hh) (by simpa using hp)
+        (by rw [hwq]; exact writeLoop_nonEmpty _ _ _ hne) ?_
+      -- the pending byte count went down by at least one
+      cases hq : s.wq with
+      | nil =>
+        have : (writeLoop (s.tls == .open) s.wq ws).wq = [] := by rw [hq]; simp [writeLoop]
+        simp [St.pending, hwq, this]
+      | cons d rest =>
+        obtain ⟨n, rest', hws⟩ := hall ws (by simp)
+        have hd : d ≠ [] := hne d (by simp [hq])
+        have hprog := T3_progress cfg s d rest (n + 1) rest' hc hh hp hq hd (by omega)
+        simp only at hprog
+        rw [← hws, hs1] at hprog
+        have := (hprog hc1').1
+        simp only [List.length_cons] at hlen
+        omega
+
+/-- non-vacuity of T3-fair: 5 pending bytes, five events that each take one byte and are then refused -/
+example : (run {} ({ wq := [[1, 2], [3, 4, 5]], wantWrite := true, interestOut := true } : St)
+    ((List.replicate 5 [WAns.wrote 1, WAns.again]).map evWritable)).1.wq = [] := by decide
+
 /-- **T4 (read loop).** For every answer sequence: the data callbacks carry exactly the chunks of the leading data
 answers, in order, each once (`deliveries`, and the same chunks are appended to `delivered`/`received`); the loop issues
 one more read than it got data answers, i.e. it stops exactly at the first non-data answer (EAGAIN / WANT_* / EOF /
